@@ -269,6 +269,32 @@ class Explorer:
         return n
 
 
+def _check_extensions(self):
+    """every good path continued by one more token that names nothing there (below a leaf: anything; below a directory:
+    a name it does not list) must say so -- at every depth, also below items that are not directories"""
+    n = 0
+    for tokens, base in self.nodes:
+        if not tokens:
+            continue
+        for extra in ("x", tokens[-1].strip() + "q", "..", "0"):
+            for sep in ("/", "\\"):
+                p = sep.join(list(tokens) + [extra])
+                if self.resolves(p, False) or self.resolves(p, True):
+                    continue
+                st, out = self.ls(p)
+                n += 1
+                if st != "ok":
+                    self.fail("bad-path-" + ("raised:" + exc_sig(out) if st == "exc" else "hang"), {"path": p, "observed": repr(out)[:200]})
+                    return n
+                if "was not found" not in out:
+                    self.fail("bad-path-accepted", {"path": p, "observed": out[:200]})
+                    return n
+    return n
+
+
+Explorer.check_extensions = _check_extensions
+
+
 def run_case(case, rep, quick):
     fmt = case["fmt"]
     with scratch_dir("c10") as d:
@@ -290,6 +316,8 @@ def run_case(case, rep, quick):
         if ex.ok:
             nb = ex.check_bad_paths(2, small_pool=(quick and fmt != "cdda"))
         if ex.ok:
+            nb += ex.check_extensions() or 0
+        if ex.ok:
             deep = sum(1 for t, _ in ex.nodes if len(t) >= 2)
             rep.case(case, klass=f"ok:{len(ex.nodes)}nodes", nontrivial=deep > 0 or len(ex.nodes) > 1)
             rep.extra["good_paths"] = rep.extra.get("good_paths", 0) + (nv or 0)
@@ -307,7 +335,8 @@ class Check(CheckBase):
             "marker per leaf) and sibling names pairwise distinct; AKAI lower-case / colon-less forms may resolve to the right "
             "item or be rejected; other paths: all token sequences of length 1 (quick) / <=2 (thorough) over {real names, names "
             "with one character changed/added/removed, '', ' ', '..', ':', non-ASCII, '.', 'A:', 'a'} with each separator must "
-            "print 'was not found' and raise nothing. non-trivial = trees with nodes at depth >= 2")
+            "print 'was not found' and raise nothing; every good path (any depth, also items that are not directories) continued by "
+            "one more token that names nothing there likewise. non-trivial = trees with nodes at depth >= 2")
     assumptions = ["items with a blank printed name are not required to be addressable",
                    "paths that only differ from a good path by AKAI case / partition colon may resolve or be rejected"]
 
